@@ -344,3 +344,6 @@ func FailLoad(prop, tier string, err error) int {
 	x.Undecided("load", "UNDECIDED "+err.Error())
 	return r.Finish()
 }
+
+// Rep returns the report the rule belongs to.
+func (x *R) Rep() *Report { return x.rep }
